@@ -29,6 +29,36 @@ func holdsMutexForWholeBody(dir, recv, method string) bool {
 	return b == "defer "+x+".Unlock()"
 }
 
+// lockBeforeReceiverUse reports whether the method takes `<recv>.<mutex>.Lock()` immediately followed by
+// `defer <recv>.<mutex>.Unlock()` at the top level of its body before any statement touches a field of the receiver
+// other than its logger: everything the method reads or writes of the receiver then happens inside one critical
+// section that lasts until the method returns.
+func lockBeforeReceiverUse(dir, recv, method, mutex string) bool {
+	fd := findFunc(dir, recv, method)
+	if fd.Recv == nil || len(fd.Recv.List) == 0 || len(fd.Recv.List[0].Names) == 0 {
+		return false
+	}
+	rv := fd.Recv.List[0].Names[0].Name
+	for i, s := range fd.Body.List {
+		if stmtString(s) == rv+"."+mutex+".Lock()" {
+			return i+1 < len(fd.Body.List) && stmtString(fd.Body.List[i+1]) == "defer "+rv+"."+mutex+".Unlock()"
+		}
+		touched := false
+		ast.Inspect(s, func(n ast.Node) bool {
+			if se, ok := n.(*ast.SelectorExpr); ok {
+				if id, ok := se.X.(*ast.Ident); ok && id.Name == rv && se.Sel.Name != "log" {
+					touched = true
+				}
+			}
+			return true
+		})
+		if touched {
+			return false
+		}
+	}
+	return false
+}
+
 func stmtString(s ast.Stmt) string {
 	switch t := s.(type) {
 	case *ast.ExprStmt:
@@ -68,5 +98,14 @@ func genLocks() {
 	}
 	b("appendStorePutLocked", "internal/chain/beacon", "appendStore", "Put")
 	b("schemeStorePutLocked", "internal/chain/beacon", "schemeStore", "Put")
+	a := func(lean, dir, recv, method, mutex string) {
+		v := "false"
+		if lockBeforeReceiverUse(dir, recv, method, mutex) {
+			v = "true"
+		}
+		l.pf("/-- %s: `%s.%s` takes %s (Lock(); defer Unlock()) before it touches any receiver state: what it reads and writes of the process is one critical section -/\ndef %s : Bool := %s\n", dir, recv, method, mutex, lean, v)
+	}
+	a("processCommandAtomic", "internal/dkg", "Process", "Command", "lock")
+	a("processPacketAtomic", "internal/dkg", "Process", "Packet", "lock")
 	l.pf("end Gen\n")
 }
